@@ -745,7 +745,7 @@ func (c *Ctx) optionalField(owner *types.Named, f *types.Var) bool {
 	if owner == nil || f == nil || !nilable(f.Type()) {
 		return false
 	}
-	key := owner.Obj().Name() + "." + f.Name()
+	key := objName(owner.Obj()) + "." + f.Name()
 	if optionalLinkFields[key] || optionalEntryFields[key] {
 		return true
 	}
